@@ -88,6 +88,8 @@ def make_case(rnd, i):
     g = Gen(rnd, naming=naming, method_form=mf, hostile_sel=0.15 if i % 5 == 0 else 0.0)
     g.odd_stage_functions = i % 3 == 0
     q, stages = g.chain(rnd.randint(1, 6), rnd.randint(1, 4))
+    if i % 3 == 1:
+        q = g.sprinkle_positional_only(q)
     return g, q, stages, naming, mf
 
 
@@ -401,6 +403,9 @@ def shard_main(ctx):
             except SyntaxError:
                 ctx.count("harness:targeted-syntax-error")
                 continue
+            if i % 16 == 15:
+                q = Gen(rnd).sprinkle_positional_only(q, 0.35)
+                ctx.count("feature:targeted-reuse-family-with-positional-only-parameters")
             ctx.count("feature:targeted-reuse-family")
             try:
                 with case_timeout(4.0):
